@@ -39,6 +39,19 @@ type kworld struct {
 	// the tensor the current one was sliced from (nil when it is no view): a data-writing step on
 	// the view must leave every cell of the parent that is not an element of the view as it was
 	parent *tensor.Dense
+	// the tensor the current one was cloned from: nothing done to the clone may change the source's
+	// mask or data
+	src     *tensor.Dense
+	srcSnap string
+}
+
+func kSnap(t *tensor.Dense) (s string) {
+	defer func() {
+		if e := recover(); e != nil {
+			s = "P"
+		}
+	}()
+	return kBits(t.Mask()) + "|" + fmt.Sprint(t.Data())
 }
 
 // outsideCells: the raw data of the parent at the storage positions the view does not address
@@ -202,6 +215,10 @@ func (w *kworld) mstep(op string) (out string, stop bool) {
 		before, okb = w.outsideCells()
 	}
 	out, stop = w.mstep1(op)
+	if w.src != nil && f0 != "clone" && kSnap(w.src) != w.srcSnap {
+		out += " !source-changed"
+		w.srcSnap = kSnap(w.src)
+	}
 	if writes && okb {
 		after, oka := w.outsideCells()
 		if oka && fmt.Sprint(before) != fmt.Sprint(after) {
@@ -326,6 +343,7 @@ func (w *kworld) mstep1(op string) (out string, stop bool) {
 	case "clone":
 		w.t = t.Clone().(*tensor.Dense)
 		w.parent = nil
+		w.src, w.srcSnap = t, kSnap(t)
 		return st(nil), false
 	case "mat":
 		w.t = t.Materialize().(*tensor.Dense)
